@@ -67,6 +67,7 @@ func main() {
 	solver := flag.String("solver", "z3new", "z3new | cvc5 | z3old")
 	maxPaths := flag.Int("maxpaths", 0, "stop after this many paths (0 = unbounded); reported as truncated")
 	maxViol := flag.Int("maxviol", 3, "violations recorded per label")
+	stopViol := flag.Int("stopviol", 60, "stop exploring a harness after this many violating paths (0 = never)")
 	timeout := flag.Duration("timeout", 0, "wall clock limit per harness (0 = none); reported as truncated")
 	cross := flag.Int("cross", 0, "re-decide every k-th assertion query with cvc5 (0 = off)")
 	tags := flag.String("tags", "verif", "build tags")
@@ -136,7 +137,7 @@ func main() {
 		if fn == nil {
 			fatal(fmt.Errorf("harness %s not found", hs))
 		}
-		opts := &Options{Fuel: *fuel, MaxDepth: *maxDepth, MaxDec: *maxDec, Workers: *workers, Solver: *solver, MaxPaths: *maxPaths, MaxViol: *maxViol, Verbose: *verbose, CrossFrac: *cross, Params: params}
+		opts := &Options{Fuel: *fuel, MaxDepth: *maxDepth, MaxDec: *maxDec, Workers: *workers, Solver: *solver, MaxPaths: *maxPaths, MaxViol: *maxViol, StopViol: *stopViol, Verbose: *verbose, CrossFrac: *cross, Params: params}
 		if *timeout > 0 {
 			opts.Deadline = time.Now().Add(*timeout)
 		}
